@@ -509,10 +509,36 @@ Fixpoint kz_eqb (a b : list (Key * Z)) : bool :=
   | (k1, x) :: a', (k2, y) :: b' => keqb k1 k2 && (x =? y) && kz_eqb a' b'
   | _, _ => false
   end.
+(* pro-rata split between the started assets staked on a validator: the index increments of one reward
+   denom satisfy  d_a : d_b = w_a / T_a : w_b / T_b  (the validator's tokens of the asset cancel against the
+   per-token index).  Evaluated on claims (nothing else moves in them), for pairs of assets whose staked
+   reward weights are not vanishing (the code divides integers: 18-digit relative error) and whose
+   increments are at least 10^9 index units; relative tolerance 10^-6. *)
+Definition idx_of (s : State) (v rd dn : Z) : Z :=
+  match rh_find (vi_hist (match kget (valinfos s) [v] with Some vi => vi | None => empty_valinfo end)) rd dn with
+  | Some h => rh_index h | None => 0 end.
+Definition split_ok (pre post : State) (v : Z) : bool :=
+  let vi := match kget (valinfos pre) [v] with Some x => x | None => empty_valinfo end in
+  let live := filter (fun kv => let a := snd kv in
+                 (0 <? a_tokens a) && rewards_started a (now pre) && (0 <? val_tokens a vi)
+                 && (1000000000 <=? dquo_int (dmul (a_weight a) (val_tokens a vi)) (a_tokens a))) (assets pre) in
+  let rds := nodup_z (map rh_denom (vi_hist (match kget (valinfos post) [v] with Some x => x | None => empty_valinfo end))) in
+  forallb (fun rd =>
+    forallb (fun ka => forallb (fun kb =>
+      let a := snd ka in let b := snd kb in
+      let da := idx_of post v rd (a_denom a) - idx_of pre v rd (a_denom a) in
+      let db := idx_of post v rd (a_denom b) - idx_of pre v rd (a_denom b) in
+      if (a_denom a =? a_denom b) || (da <? 1000000000) || (db <? 1000000000) then true
+      else
+        let l := da * a_weight b * a_tokens a in
+        let r := db * a_weight a * a_tokens b in
+        Z.abs (l - r) * 1000000 <=? Z.max (Z.abs l) (Z.abs r)) live) live) rds.
+
 Definition check_C13 (pre : State) (o : Op) (c : Z) (post : State) : list Z :=
   match o with
   | OClaim del v d =>
     if c =? R_OK then
+      clause 7 (split_ok pre post v) ++
       clause 1 (kz_eqb (shares_view pre) (shares_view post) && assets_map_eqb (assets pre) (assets post))
       (* nothing is claimable by this position immediately afterwards *)
       ++ clause 2 (match kget (delegations post) [del; v; d] with
@@ -521,6 +547,14 @@ Definition check_C13 (pre : State) (o : Op) (c : Z) (post : State) : list Z :=
     else []
   | ODelegate del v d a =>
     if c =? R_OK then
+      (* the validator entered is settled first: when the module has stake on it (something can be
+         pending in the distribution module) the operation withdraws for it — what had accrued is indexed
+         before the new stake exists.  The withdrawals of the operation are recorded from the real
+         distribution module (EOracle). *)
+      clause 8 (negb (kmem (sdels pre) [v])
+                || negb (negb (kmem (delegations pre) [del; v; d])
+                         || match kget (assets pre) [d] with Some a => rewards_started a (now pre) | None => false end)
+                || existsb (fun w => fst w =? v) (oracle pre)) ++
       if negb (kmem (delegations pre) [del; v; d]) then
         (* a new position starts with nothing claimable *)
         clause 3 (match kget (delegations post) [del; v; d] with
